@@ -1,7 +1,7 @@
 (* C02 -- Each block delivers exactly the new ancestry of its Atropos.
    Statements only; proofs in proofs/AbftDfs.v AbftChain.v AbftSeal.v AbftProcess.v. *)
 From Coq Require Import NArith List.
-From LV Require Import model.VecIndex model.Abft model.AbftRun spec.AbftSpec
+From LV Require Import model.VecIndex model.Abft model.AbftRun spec.AbftSpec proofs.AbftFrame
   proofs.AbftDfs proofs.AbftDfsFuel proofs.AbftSeal proofs.AbftProcess proofs.AbftChain proofs.AbftRoots proofs.AbftRooted proofs.AbftRunInv proofs.VecStep proofs.AbftInv proofs.AbftInvStep proofs.AbftGraph proofs.AbftSealWitness.
 Import ListNotations.
 Local Open Scope N_scope.
@@ -47,15 +47,23 @@ Theorem C02_frames_consecutive : forall cap end_block es st e r bl st',
 Proof. exact process_frames. Qed.
 
 (* each block's Atropos is a root of the block's frame: it is stored in the root table for exactly that
-   frame (R = the table right after the processed event's own roots were registered; it does not change
-   before a seal).  [V] = every yes-vote of the election that names a root names a stored root of the frame
-   being decided; it holds at genesis / Reset / after a seal and is re-established by every call.
-   ([names_root R f a] reads "a <> zero hash -> a root (f, _, a) is in R": a decided yes-vote always
-   carries the observed root; that the zero hash never occurs is not proved.) *)
+   frame.  R is the root table right after the processed event's own slots were registered, and it is
+   bounded from both sides (audit-F issue 1: an unbounded R made the clause trivial): it contains the old
+   table and nothing but the old table plus the slots (g, creator e, id e), self-parent frame < g <= frame e;
+   when the call accepts the event without sealing, R is the root table of the resulting state.
+   [V] = every yes-vote of the election that names a root names a stored root of the frame being decided.
+   The statement over the GRAPH (the Atropos is an accepted event whose frame interval contains the block's
+   frame) is C02_atropos_is_graph_root below. *)
 Theorem C02_atropos_is_root : forall cap end_block es st e r bl st',
   V st -> elinv st -> process cap end_block es st e = (r, bl, st') ->
-  exists R, (forall r0, In r0 (l_roots st) -> In r0 R) /\ all_rooted R bl /\ (sealed_last bl = false -> V st').
-Proof. exact process_atropos_rooted. Qed.
+  exists R,
+    (forall r0, In r0 (l_roots st) -> In r0 R) /\
+    (forall r0, In r0 R -> In r0 (l_roots st) \/
+        (r_val r0 = a_creator e /\ r_id r0 = a_id e /\ r_frame r0 <= a_frame e /\
+         exists spf, AbftFrame.spf_of es e = Ok spf /\ spf < r_frame r0)) /\
+    all_rooted R bl /\
+    (sealed_last bl = false -> V st' /\ (r = Ok tt -> l_roots st' = R)).
+Proof. exact process_atropos_rooted_exact. Qed.
 Theorem C02_V_initially : forall ep v st, V (genesis ep v) /\ V (reset st ep v).
 Proof. intros; split; [apply V_genesis | apply V_reset_state]. Qed.
 
